@@ -13,7 +13,7 @@ import (
 type Attacher func(net.Conn)
 
 // Timeout is the hang detector for acknowledgements (generous; a normal round trip takes microseconds).
-var Timeout = 20 * time.Second
+var Timeout = 120 * time.Second
 
 // Client is one scripted client.
 type Client struct {
